@@ -15,7 +15,6 @@ import (
 	"fmt"
 	"html/template"
 	"io"
-	"regexp"
 	"runtime"
 	"runtime/debug"
 	"strings"
@@ -24,36 +23,6 @@ import (
 	"github.com/maruel/panicparse/v2/internal/verifx/gen"
 	"github.com/maruel/panicparse/v2/internal/verifx/h"
 )
-
-// C03Seeds are complete inputs covering every line kind of both grammars.
-func c03Seeds() [][]byte {
-	env := genEnv()
-	var seeds [][]byte
-	contents := []fixedChooser{
-		{},
-		{"goroutines": 1, "g0.stack-shape": 1, "g0.creator": 2, "g0.f0.argshape": 9, "g0.minutes": 2, "g0.locked": 1, "g1.stack-shape": 6},
-		{"goroutines": 2, "g0.f0.sym": 17, "g0.f0.argshape": 14, "g1.stack-shape": 7, "g2.creator": 1, "g2.f0.sym": 4, "g0.f0.file": 3},
-		{"indent": 2, "goroutines": 1, "g0.stack-shape": 1, "g1.creator": 1, "crlf": 1},
-		{"header-annotation": 1, "frame-annotation": 2, "g0.f0.sym": 22, "g0.f0.file": 5, "g0.stack-shape": 2, "g0.f0.argshape": 25},
-		{"g0.stack-shape": 1, "g0.f0.argshape": 20, "g0.f0.leafvalues": 4, "g0.f1.argshape": 30, "g0.f1.sym": 13, "g0.state": 12},
-	}
-	for _, c := range contents {
-		d := gen.GenDump(c, env)
-		if len(d.Gs) > 0 && len(d.Gs[0].Calls) > 0 && d.Gs[0].ElidedText == "" && c["g0.stack-shape"] == 1 {
-			d.Gs[0].ElidedAt, d.Gs[0].ElidedText = len(d.Gs[0].Calls), "...5 frames elided..."
-		}
-		seeds = append(seeds, append(append([]byte("panic: boom\n\n"), d.Bytes()...), "exit status 2\n"...))
-	}
-	for _, c := range raceContents[:4] {
-		rc, _ := gen.GenRace(c)
-		seeds = append(seeds, append(append([]byte("out\n"), rc.Bytes()...), "Found 1 data race(s)\n"...))
-	}
-	rc, _ := gen.GenRace(fixedChooser{"ops": 1, "foreign-section": 2, "section-for-op1": 1})
-	seeds = append(seeds, rc.Bytes())
-	// two dumps and a race report in one stream
-	seeds = append(seeds, append(append(append([]byte{}, seeds[0]...), seeds[6]...), seeds[1]...))
-	return seeds
-}
 
 func splitLines(b []byte) [][]byte {
 	var out [][]byte
@@ -145,12 +114,6 @@ func renderAll(s *Snapshot, renderHTML bool, mk func(fp, msg string) *h.Viol) (v
 	return nil
 }
 
-var reNumber = regexp.MustCompile(`\d+`)
-var numberCorruptions = []string{"", "123456789012345678", "1234567890123456789", "1234567890123456789012345678901234567890", "-1", "0x", "1a", "00"}
-var bracketCorruptions = []string{"{", "}", "{{", "}}", "{}", "{{{{{{0x1}}}}}}", "{{{{{{{0x1}}}}}}}", "{0x1", "0x1}", "{0x1}, {", "...", "{...}", "_", "?", "0x?", "{_}", ", ", ",", "{, }"}
-var escapeCorruptions = []string{"%", "%2", "%zz", "%00", "%2e", "%2e%2e", "%ff", "+", "%25"}
-var addrCorruptions = []string{"0x", "0x00000000000000000", "0xg", "", "0x12345678901234567"}
-
 func TestVerifC03(t *testing.T) {
 	r := h.Start("C03")
 	defer r.Finish(func(s string) { t.Error(s) })
@@ -171,7 +134,7 @@ func TestVerifC03(t *testing.T) {
 		runLineSearch(t, r, "C03", true)
 		return
 	}
-	seeds := c03Seeds()
+	seeds := gen.RobustSeeds()
 	r.Set("seeds", len(seeds))
 	try := func(kind string, seed int, input []byte, changed bool) {
 		key := string(input)
@@ -194,128 +157,8 @@ func TestVerifC03(t *testing.T) {
 		r.Record(key, changed, out)
 		r.Add("inputs_"+kind, 1)
 	}
-	for si, seed := range seeds {
-		lines := splitLines(seed)
-		n := len(lines)
-		try("seed", si, seed, false)
-		// single line edits
-		edit := func(f func() [][]byte) { try("line-edit", si, joinLines(f()), true) }
-		for i := 0; i < n; i++ {
-			i := i
-			edit(func() [][]byte { return append(append([][]byte{}, lines[:i]...), lines[i+1:]...) })
-			edit(func() [][]byte {
-				return append(append(append([][]byte{}, lines[:i+1]...), lines[i]), lines[i+1:]...)
-			})
-			for j := 0; j < n; j++ {
-				j := j
-				if j > i {
-					edit(func() [][]byte {
-						o := append([][]byte{}, lines...)
-						o[i], o[j] = o[j], o[i]
-						return o
-					})
-				}
-				if j != i {
-					edit(func() [][]byte { // move i -> j
-						o := append(append([][]byte{}, lines[:i]...), lines[i+1:]...)
-						return append(append(append([][]byte{}, o[:min(j, len(o))]...), lines[i]), o[min(j, len(o)):]...)
-					})
-				}
-			}
-			// splice every line of the "other grammar" seed at i
-			other := splitLines(seeds[(si+6)%len(seeds)])
-			for k := range other {
-				k := k
-				edit(func() [][]byte {
-					return append(append(append([][]byte{}, lines[:i]...), other[k]), lines[i:]...)
-				})
-			}
-		}
-		if r.Thorough() && n <= 40 {
-			for i := 0; i < n; i++ {
-				for j := i + 1; j < n; j++ {
-					i, j := i, j
-					edit(func() [][]byte { // delete two
-						o := append(append([][]byte{}, lines[:i]...), lines[i+1:j]...)
-						return append(o, lines[j+1:]...)
-					})
-					edit(func() [][]byte { // duplicate i, delete j
-						o := append(append(append([][]byte{}, lines[:i+1]...), lines[i]), lines[i+1:j]...)
-						return append(o, lines[j+1:]...)
-					})
-				}
-			}
-		}
-		// truncations
-		for cut := 0; cut < len(seed); cut++ {
-			try("truncation", si, seed[:cut], true)
-		}
-		// token corruptions: numbers
-		for _, loc := range reNumber.FindAllIndex(seed, -1) {
-			for _, c := range numberCorruptions {
-				try("number", si, append(append(append([]byte{}, seed[:loc[0]]...), c...), seed[loc[1]:]...), true)
-			}
-		}
-		// escapes at every position of every function line's symbol; brackets in every argument list
-		off := 0
-		for _, l := range lines {
-			t0 := bytes.TrimRight(l, "\r\n")
-			if open := bytes.IndexByte(t0, '('); open > 0 && bytes.HasSuffix(t0, []byte(")")) {
-				for p := 0; p <= open; p++ {
-					for _, c := range escapeCorruptions {
-						try("escape", si, append(append(append([]byte{}, seed[:off+p]...), c...), seed[off+p:]...), true)
-					}
-				}
-				for _, c := range bracketCorruptions {
-					o := append([]byte{}, seed[:off+open+1]...)
-					o = append(o, c...)
-					o = append(o, seed[off+len(t0)-1:]...)
-					try("brackets", si, o, true)
-					// also appended to the existing list
-					o2 := append([]byte{}, seed[:off+len(t0)-1]...)
-					o2 = append(o2, ", "...)
-					o2 = append(o2, c...)
-					o2 = append(o2, seed[off+len(t0)-1:]...)
-					try("brackets", si, o2, true)
-				}
-			}
-			if bytes.HasPrefix(t0, []byte("created by ")) {
-				for p := len("created by "); p <= len(t0); p++ {
-					for _, c := range escapeCorruptions {
-						try("escape", si, append(append(append([]byte{}, seed[:off+p]...), c...), seed[off+p:]...), true)
-					}
-				}
-			}
-			if i := bytes.Index(t0, []byte(" at 0x")); i > 0 {
-				j := bytes.Index(t0[i+4:], []byte(" "))
-				for _, c := range addrCorruptions {
-					o := append([]byte{}, seed[:off+i+4]...)
-					o = append(o, c...)
-					o = append(o, seed[off+i+4+j:]...)
-					try("address", si, o, true)
-				}
-			}
-			off += len(l)
-		}
-	}
-	// all single byte substitutions of three short seeds
-	short := [][]byte{
-		[]byte("goroutine 1 [running]:\nmain.f(0x1, {0x2})\n\t/a/b.go:10 +0x1\ncreated by main.g\n\t/a/c.go:2 +0x3\n\ngoroutine 2 [select]:\n\tgoroutine running on other thread; stack unavailable\n"),
-		[]byte("==================\nWARNING: DATA RACE\nRead at 0x00c0 by goroutine 7:\n  main.r()\n      /a/b.go:1 +0x1\n\nGoroutine 7 (running) created at:\n  main.m()\n      /a/b.go:2 +0x2\n==================\n"),
-		[]byte("  goroutine 5 [chan send, 2 minutes]:\r\n  a%2eb/c.d(...)\r\n  \t/x.go:1\r\n  ...3 frames elided...\r\n"),
-	}
-	for si, seed := range short {
-		for off := range seed {
-			for b := 0; b < 256; b++ {
-				if byte(b) == seed[off] {
-					continue
-				}
-				o := append([]byte{}, seed...)
-				o[off] = byte(b)
-				try("byte-subst", 100+si, o, true)
-			}
-		}
-	}
+	_ = seeds
+	gen.RobustInputs(r.Thorough(), try)
 	if r.Shard == 0 {
 		growthCheck(r)
 	}
